@@ -630,8 +630,65 @@ func checkBoundedGrowth(p *Prog, r *Report, fns []*FuncInfo) {
 			if hit {
 				return true
 			}
+			// an unexported helper every path through which passes such a backlog test
+			helperTests := false
+			inspectShallow(n, func(x ast.Node) bool {
+				call, ok := x.(*ast.CallExpr)
+				if !ok {
+					return true
+				}
+				f := p.Callee(call)
+				if f == nil || f.Exported() || f.Pkg() != p.Types {
+					return true
+				}
+				h := p.FuncOf(f)
+				if h == nil || h.Body == nil || h == input {
+					return true
+				}
+				hc := p.CFG(h)
+				var tests []*cfg.Block
+				for _, b := range hc.live {
+					if len(b.Succs) != 2 {
+						continue
+					}
+					if ct := hc.CondTerm(b); backlogDisjunct(ct, fAck) {
+						for _, nd := range b.Succs[0].Nodes {
+							inspectShallow(nd, func(y ast.Node) bool {
+								if c2, ok := y.(*ast.CallExpr); ok && p.Callee(c2) == flush {
+									tests = append(tests, b)
+								}
+								return true
+							})
+						}
+					}
+				}
+				if len(tests) == 0 {
+					return true
+				}
+				for _, t := range tests {
+					if t == hc.Entry() {
+						helperTests = true // the test is the first thing the helper does
+						return true
+					}
+				}
+				avoid := hc.FindPath(PathQuery{From: Point{hc.Entry(), 0}, ExitIsTarget: true, OnBlock: func(b *cfg.Block) (bool, bool) {
+					for _, t := range tests {
+						if t == b {
+							return false, true
+						}
+					}
+					return false, false
+				}})
+				if !avoid.Found {
+					helperTests = true
+				}
+				return true
+			})
+			if helperTests {
+				return true
+			}
 			if q.I == len(q.B.Nodes)-1 && len(q.B.Succs) == 2 {
-				if ct := c.CondTerm(q.B); ct != nil && ct.Op == "<=" && ct.Args[1].Op == "len" && termHasField(ct.Args[1], fAck) {
+				if ct := c.CondTerm(q.B); backlogDisjunct(ct, fAck) {
 					for _, nd := range q.B.Succs[0].Nodes {
 						f := false
 						inspectShallow(nd, func(x ast.Node) bool {
@@ -1798,4 +1855,21 @@ func checkStagingBufferGrows(p *Prog, r *Report) {
 	if n == 0 {
 		r.ok("C05.B13", fi.Name, p.Pos(fi.Node), "staging buffer", "Read does not reslice a staging buffer to the message size")
 	}
+}
+
+// backlogDisjunct: the condition is, or has as one alternative of a disjunction, X <= len(acklist) — the branch is
+// taken whenever the backlog has reached X.
+func backlogDisjunct(ct *Term, fAck *types.Var) bool {
+	if ct == nil {
+		return false
+	}
+	if ct.Op == "||" {
+		for _, a := range ct.Args {
+			if backlogDisjunct(a, fAck) {
+				return true
+			}
+		}
+		return false
+	}
+	return ct.Op == "<=" && len(ct.Args) == 2 && ct.Args[1].Op == "len" && termHasField(ct.Args[1], fAck)
 }
